@@ -115,6 +115,28 @@ func (r *Run) Set(key string, v any) {
 	r.Coverage[key] = v
 }
 
+// Rule appends to the coverage "rule" text.
+func (r *Run) Rule(s string) {
+	r.mu.Lock()
+	defer r.mu.Unlock()
+	old, _ := r.Coverage["rule"].(string)
+	if old != "" {
+		old += " || "
+	}
+	r.Coverage["rule"] = old + s
+}
+
+// Append appends to a coverage text key.
+func (r *Run) Append(key, s string) {
+	r.mu.Lock()
+	defer r.mu.Unlock()
+	old, _ := r.Coverage[key].(string)
+	if old != "" {
+		old += " || "
+	}
+	r.Coverage[key] = old + s
+}
+
 // Get returns an integer coverage counter.
 func (r *Run) Get(key string) int {
 	r.mu.Lock()
